@@ -52,3 +52,30 @@ pub fn defragment_step(offset0: u64, len: usize, alloc: usize, defragmented: boo
     core::mem::forget(b);
     w
 }
+
+/// C01 (no byte delivered twice): switching an assembler with nothing buffered to unordered mode
+/// must remember the prefix the application has already consumed - a late duplicate of those bytes
+/// is otherwise delivered a second time.  Every read cursor.
+pub fn ensure_ordering_empty(bytes_read: u64) -> u32 {
+    if bytes_read >= V62 {
+        return 0;
+    }
+    let mut a = mk_assembler(bytes_read);
+    let r = a.ensure_ordering(false);
+    assert!(r.is_ok());
+    let w = {
+        let State::Unordered { ref recvd } = a.state else { panic!("assembler did not enter unordered mode") };
+        match recvd.peek_min() {
+            Some(r) => {
+                assert!(r.start == 0 && r.end == bytes_read && bytes_read > 0);
+                1
+            }
+            None => {
+                assert!(bytes_read == 0);
+                2
+            }
+        }
+    };
+    core::mem::forget(a);
+    w
+}
